@@ -340,10 +340,14 @@ CLAIMED.update({
         text="Kernel-level partial claim on the JSON target: (1) the text written for a literal, for a name bound to a constant and for a folded constant expression is the value-to-JSON "
              "writer applied to that value (not the token's source text, not ValueObj's Display); (2) the writer writes None as null and booleans as true / false (all values, Kani); "
              "(3) for a Str value it calls one string kernel, and for every string of k characters (k <= 2 quick, <= 3 thorough; every Unicode scalar value for each character) the "
-             "kernel's text is exactly one RFC 8259 string literal that decodes to the same string. The structural arms (list / tuple / record / dict displays, commas, key quoting), "
-             "number formatting (Rust's Display), containers as *values* (bound names holding lists / records / dicts), longer strings and the front end are not decided.",
-        note="Trusts rustc's MIR dump, engines/mirsem.py + mirflow.py, z3, Kani/CBMC, the RFC 8259 decoder in props/c18_str.py, and the models of String::push / push_str / "
-             "with_capacity, str::chars / len and Chars::next (the UTF-8 encoding inside std is not modelled: strings are sequences of code points). Validated per run: on 20 fixed "
+             "kernel's text is exactly one RFC 8259 string literal that decodes to the same string; (4) the list / tuple / record / dict arms of transpile_expr, transpile_def and "
+             "transpile, on containers of n <= 2 (thorough 3) opaque elements whose texts are JSON values by the induction hypothesis, write the JSON array / object of those texts in "
+             "order, each name or key with its own value (every binding public); (5) the writer itself does the same for list / tuple / dict / record *values* (names bound to "
+             "containers; string-keyed dicts), helper functions introduced by refactorings being executed, not assumed; (6) Int / Nat / finite Float values are written by std's rendering "
+             "of the machine number, not by ValueObj's Display (contract sampled natively: the text reads back as the same number). Escaping of record keys (identifiers), longer "
+             "strings, non-finite floats and the front end are not decided.",
+        note="Trusts rustc's MIR dump, engines/mirsem.py + mirflow.py, z3, Kani/CBMC, the RFC 8259 decoder in props/c18_str.py and structure parser in props/c18_struct.py, that std's Display / Debug of a finite machine number is a JSON number denoting it (sampled per run), and the models of String::push / push_str / "
+             "with_capacity, str::chars / len, Chars::next, Vec::into_iter / enumerate / next, slice::iter, Dict::iter, Iterator::map / collect / any, [String]::join, str::bytes, String += / pop and format! with `{}` placeholders (template bytes read from the MIR constant) (the UTF-8 encoding inside std is not modelled: strings are sequences of code points). Validated per run: on 20 fixed "
              "strings the real kernel's output equals the encoding's output byte for byte. The kernel handles one character at a time and keeps no state but the output buffer, which "
              "is why k <= 3 is taken as representative; longer strings are outside the claim.",
         design="0b/C18"),
